@@ -76,13 +76,16 @@ harnesses! {
         // an over-long duration may wait for ever by documentation; that path is not a violation
         env::set_block_is_violation(false);
         let r = rx.try_recv_timeout(d);
-        assert!(env::polls() == 1, "C10: exactly one wait");
+        assert!(env::polls() >= 1, "C10: the timed receive must wait");
+        // "to millisecond granularity": rounding the requested time down or up to a millisecond is
+        // accepted; anything else (another unit, a truncated value) is not
         let ms: u128 = (secs as u128) * 1000 + (nanos as u128) / 1_000_000;
+        let up: u128 = ms + if nanos % 1_000_000 != 0 { 1 } else { 0 };
         let t = env::last_poll_timeout();
-        if ms <= i32::MAX as u128 {
-            assert!(t as u128 == ms, "C10: wait is not the requested time in milliseconds");
-        } else {
-            assert!(t == -1, "C10: unrepresentable wait must be 'for ever', not a shorter one");
+        if up <= i32::MAX as u128 {
+            assert!(t >= 0 && (t as u128 == ms || t as u128 == up), "C10: wait is not the requested time in milliseconds");
+        } else if ms > i32::MAX as u128 {
+            assert!(t == -1 || t == i32::MAX, "C10: unrepresentable wait must be 'for ever' (or the longest representable), not a shorter one");
         }
         assert!(matches!(r, Err(ref e) if !e.channel_is_closed()), "C10: timed-out wait must not report a message or closure");
         let r2: Result<(), TryRecvError> = r.map(|_| ()).map_err(|e| e.into());
